@@ -101,6 +101,21 @@ def plan(tier, seed):
             U += u(dict(c, opts={'graded': True}), 'gradeblocks', 1, count=120, cap=11)
         for c, w in zip(rng.sample(d2, 6) + rng.sample(d3, 14), ('wraps', 'identity') * 10):
             U += u(dict(c, opts={'wrapper': w}), 'sparse', 1, count=300, cap=4, perm=0.6, min_size=2)
+        # default basis and custom basis of one signature in one process, same key patterns (state shared between Algebra instances)
+        pairs = [({'p': 2, 'q': 0, 'r': 1}, {'named': '2DPGA'}), ({'named': '3DPGA'}, {'p': 3, 'q': 0, 'r': 1}), ({'p': 3, 'q': 0, 'r': 1}, {'named': '3DPGA'}),
+                 ({'signature': [1, -1]}, {'signature': [1, -1], 'basis': ['e', 'e2', 'e1', 'e21']}),
+                 ({'signature': [1, 1, 1], 'basis': ['e', 'e3', 'e1', 'e2', 'e31', 'e12', 'e32', 'e312']}, {'p': 3, 'q': 0, 'r': 0})]
+        for _ in range(25):
+            cc = gen.random_custom_cfg(rng, rng.choice((2, 3, 3, 4)))
+            plain = {'signature': list(cc['signature'])}
+            pairs.append((cc, plain) if rng.random() < 0.5 else (plain, cc))
+        for a_, b_ in pairs:
+            U += [dict(unit_, pair_with=b_, pseed=rng.randrange(10 ** 9)) for unit_ in u(a_, 'sparse', 1, count=100, cap=5, perm=0.2)]
+        for c in rng.sample(gen.pqr_all(2, 4), 12):
+            for size in (1, 2, 3):
+                U += u(c, 'fresh_vs_fixed', 1, count=150, size=size)
+        for c in rng.sample(gen.pqr_all(6, 6), 4) + [{'signature': gen.random_sig(rng, 7)} for _ in range(3)]:
+            U += u(c, 'highgrade', 1, count=60, cap=4)
         nshards = 64
     rng.shuffle(U)
     return [{'units': part} for part in gen.split(U, nshards)]
